@@ -2,6 +2,8 @@ package lib
 
 import (
 	"fmt"
+
+	"github.com/go-logr/logr"
 	"io"
 	"runtime"
 	"runtime/debug"
@@ -16,6 +18,9 @@ func init() {
 	// klog is noise here; never write it to a pipe nobody reads.
 	klog.LogToStderr(false)
 	klog.SetOutput(io.Discard)
+	// a discarding logr sink makes klog skip message formatting altogether (structured klog calls marshal
+	// whole objects otherwise, which dominated the run time of the explorer)
+	klog.SetLogger(logr.Discard())
 }
 
 // Panic describes a recovered panic.
